@@ -88,6 +88,16 @@ func checkC14(c *km.Ctx) {
 	if nNil == 0 {
 		r.AnchorLost("R-C14-1", "nil return of checkPasswordAttemptLimit")
 	}
+	// a recovered panic leaves the function through its recovery exit with the zero value of the result - a nil
+	// error, "not limited" - whatever the limiter said: the limiter function has no such exit
+	if lim.Recover != nil {
+		okR := false
+		if ret, isRet := lim.Recover.Instrs[len(lim.Recover.Instrs)-1].(*ssa.Return); isRet {
+			rv := km.ReturnValues(ret)
+			okR = len(rv) > 0 && !km.IsNilConst(rv[len(rv)-1]) && km.Nilness(rv[len(rv)-1]) > 0
+		}
+		r.Add("R-C14-1", km.FuncName(lim), "exit after a recovered panic", c.P.Pos(lim.Pos()), "none, or one that reports an error (a recovered panic must not read as \"attempt allowed\")", "returns the zero value", okR)
+	}
 	n429 := 0
 	for _, ci := range km.CallsIn(lim) {
 		if code, ok := statusOfFailureCall(ci); ok {
@@ -373,12 +383,20 @@ func checkC14(c *km.Ctx) {
 	// the stores may sit in validateUserTOTP or in a method of the record it calls with the record's address
 	// (recordFailure(now)); for ordering, a store inside a method counts at the call
 	var incr, lockSet ssa.Instruction
+	var failStamps []ssa.Instruction
 	judgeStore := func(st *ssa.Store, at ssa.Instruction, callee *ssa.Function, call ssa.CallInstruction) {
 		fa, ok := st.Addr.(*ssa.FieldAddr)
 		if !ok || km.NamedTypeOf(fa.X.Type()) != rateInfoT {
 			return
 		}
 		switch fieldNameOf(fa) {
+		case "lastFailTime":
+			// the time of the failure: the 24 h window of the failure count is measured from it
+			if km.NamedTypeOf(st.Val.Type()) == "time.Time" {
+				if _, isZero := km.Unwrap(st.Val).(*ssa.Const); !isZero {
+					failStamps = append(failStamps, at)
+				}
+			}
 		case "failCount":
 			if b, ok := km.Unwrap(st.Val).(*ssa.BinOp); ok && b.Op == token.ADD {
 				if one, isC := km.ConstInt(b.Y); isC && one == 1 {
@@ -437,6 +455,17 @@ func checkC14(c *km.Ctx) {
 		}
 	})
 	r.Add("R-C14-4", km.FuncName(vt), "failure counter incremented", posRef(c, incr, vt), "failCount = failCount + 1 on the failed-validation path", sprintf("%v", incr != nil), incr != nil)
+	if incr != nil {
+		// the failure is dated: without lastFailTime the count is "older than 24 h" at every attempt and starts
+		// again from zero, so the fifth failure never comes
+		stamped := false
+		for _, fs := range failStamps {
+			if km.InstrDominates(incr, fs) || km.InstrDominates(fs, incr) {
+				stamped = true
+			}
+		}
+		r.Add("R-C14-4", km.FuncName(vt), "failure time recorded", posOf(c, incr), "a failed validation stores the current time into lastFailTime (the failure-count window is measured from it)", sprintf("%v", stamped), stamped)
+	}
 	r.Add("R-C14-4", km.FuncName(vt), "lock-out applied", posRef(c, lockSet, vt), "every K-th failure stores lockoutExpirationTime = time.Now().Add(positive duration)", sprintf("%v", lockSet != nil), lockSet != nil)
 	if incr != nil {
 		// after the increment every return is preceded by a map update under the mutex
